@@ -35,7 +35,7 @@ def _logical_lines(toks):
 def scan_source(src):
     """-> dict category -> list of (line, text)"""
     toks = list(tokenize.generate_tokens(io.StringIO(src).readline))
-    hits = {"draw": [], "hash": [], "set_new": [], "dict_new": [], "sort": [], "hash_def": [], "order_def": [], "import": [], "uninit": []}
+    hits = {"draw": [], "hash": [], "set_new": [], "dict_new": [], "sort": [], "hash_def": [], "order_def": [], "import": [], "uninit": [], "empty_use": []}
     aliases = set()
     lines = list(_logical_lines(toks))
     # pass 1: import lines -> extra watch words (names bound from a watched module)
@@ -115,6 +115,8 @@ def scan_source(src):
                     hits["sort"].append((t.start[0], ".sort"))
             elif s in ("empty", "empty_like", "ndarray") and called and dotted_before and i >= 2 and ln[i - 2].string in ("np", "numpy"):
                 hits["uninit"].append((t.start[0], s))
+            elif s in ("empty", "empty_like") and called and (not dotted_before or (i >= 2 and ln[i - 2].string in ("synapgrad", "sg", "tensor"))):
+                hits["empty_use"].append((t.start[0], s))
     return hits
 
 
@@ -186,6 +188,7 @@ def compare_tokens(census, hits):
         "hash_def": Counter((r["file"], r["line"]) for r in census["hash_defs"] if r["method"] != "@dataclass"),
         "order_def": Counter((r["file"], r["line"]) for r in census.get("order_defs", []) if not r["method"].startswith("@")),
         "uninit": Counter((r["file"], r["line"]) for r in census["uninits"]),
+        "empty_use": Counter((r["file"], r["line"]) for r in census.get("empty_uses", [])),
     }
     for cat, rc in rows.items():
         hc = Counter()
@@ -337,6 +340,33 @@ UNIT_SORTS = [
     ("total-ordering", "from functools import total_ordering\n@total_ordering\nclass A:\n    def __le__(self, o):\n        return True\n", [], ["@total_ordering", "__le__"]),
 ]
 
+# (name, source, expected empty_use rows [(attr, initialised)])
+_HDR = "import synapgrad\nfrom synapgrad import nn\nfrom synapgrad.nn import init\n"
+UNIT_EMPTY = [
+    ("direct-param", _HDR + "class L(nn.Module):\n    def __init__(self, n):\n        super().__init__()\n        self.w = nn.Parameter(synapgrad.empty((n,)))\n        self.reset()\n    def reset(self):\n        init.ones_(self.w)\n", [("w", True)]),
+    ("via-local", _HDR + "class L(nn.Module):\n    def __init__(self, n):\n        super().__init__()\n        w = synapgrad.empty((n,))\n        self.w = nn.Parameter(w)\n        init.zeros_(self.w)\n", [("w", True)]),
+    ("bias-notnone", _HDR + "class L(nn.Module):\n    def __init__(self, n, bias=True):\n        super().__init__()\n        if bias:\n            bias = synapgrad.empty((n,))\n            self.bias = nn.Parameter(bias)\n        else:\n            self.bias = None\n        self.reset()\n    def reset(self):\n        if self.bias is not None:\n            nn.init.uniform_(self.bias, -1, 1)\n", [("bias", True)]),
+    ("same-flag", _HDR + "class B(nn.Module):\n    def __init__(self, n, affine=True):\n        super().__init__()\n        self.affine = affine\n        if affine:\n            self.g = nn.Parameter(synapgrad.empty(n))\n            self.reset()\n    def reset(self):\n        if self.affine:\n            init.ones_(self.g)\n", [("g", True)]),
+    ("same-flag-two-ifs", _HDR + "class B(nn.Module):\n    def __init__(self, n, affine=True):\n        super().__init__()\n        if affine:\n            self.g = synapgrad.empty(n)\n        if affine:\n            init.ones_(self.g)\n", [("g", True)]),
+    ("r3m1-shape", _HDR + "class B(nn.Module):\n    def __init__(self, n, affine=True, track=True):\n        super().__init__()\n        self.affine = affine\n        self.track = track\n        if self.track:\n            self.rm = synapgrad.empty(n)\n        else:\n            self.rm = None\n        if affine:\n            self.g = nn.Parameter(synapgrad.empty(n))\n            self.reset()\n    def reset_stats(self):\n        if self.track:\n            init.zeros_(self.rm)\n    def reset(self):\n        self.reset_stats()\n        if self.affine:\n            init.ones_(self.g)\n", [("rm", False), ("g", True)]),
+    ("r3m1-repaired", _HDR + "class B(nn.Module):\n    def __init__(self, n, affine=True, track=True):\n        super().__init__()\n        self.affine = affine\n        self.track = track\n        if self.track:\n            self.rm = synapgrad.empty(n)\n        else:\n            self.rm = None\n        if affine:\n            self.g = nn.Parameter(synapgrad.empty(n))\n        self.reset()\n    def reset_stats(self):\n        if self.track:\n            init.zeros_(self.rm)\n    def reset(self):\n        self.reset_stats()\n        if self.affine:\n            init.ones_(self.g)\n", [("rm", True), ("g", True)]),
+    ("never-reset", _HDR + "class L(nn.Module):\n    def __init__(self, n):\n        super().__init__()\n        self.w = nn.Parameter(synapgrad.empty((n,)))\n", [("w", False)]),
+    ("reset-before-alloc", _HDR + "class L(nn.Module):\n    def __init__(self, n):\n        super().__init__()\n        self.w = None\n        self.reset()\n        self.w = nn.Parameter(synapgrad.empty((n,)))\n    def reset(self):\n        init.ones_(self.w)\n", [("w", False)]),
+    ("other-attr-reset", _HDR + "class L(nn.Module):\n    def __init__(self, n):\n        super().__init__()\n        self.w = synapgrad.empty((n,))\n        self.v = synapgrad.empty((n,))\n        init.ones_(self.w)\n", [("w", True), ("v", False)]),
+    ("opaque-guard", _HDR + "class L(nn.Module):\n    def __init__(self, n, mode):\n        super().__init__()\n        self.w = synapgrad.empty((n,))\n        if mode == 'x':\n            init.ones_(self.w)\n", [("w", False)]),
+    ("flag-rebound", _HDR + "class L(nn.Module):\n    def __init__(self, n, affine):\n        super().__init__()\n        if affine:\n            self.w = synapgrad.empty((n,))\n        affine = n > 3\n        if affine:\n            init.ones_(self.w)\n", [("w", False)]),
+    ("flag-reassigned-elsewhere", _HDR + "class L(nn.Module):\n    def __init__(self, n, affine):\n        super().__init__()\n        self.affine = affine\n        if affine:\n            self.w = synapgrad.empty((n,))\n            self.fix()\n            self.reset()\n    def fix(self):\n        self.affine = False\n    def reset(self):\n        if self.affine:\n            init.ones_(self.w)\n", [("w", False)]),
+    ("early-return", _HDR + "class L(nn.Module):\n    def __init__(self, n, lazy):\n        super().__init__()\n        self.w = synapgrad.empty((n,))\n        if lazy:\n            return\n        init.ones_(self.w)\n", [("w", False)]),
+    ("overridden-reset", _HDR + "class L(nn.Module):\n    def __init__(self, n):\n        super().__init__()\n        self.w = synapgrad.empty((n,))\n        self.reset()\n    def reset(self):\n        init.ones_(self.w)\nclass M(L):\n    def reset(self):\n        pass\n", [("w", False)]),
+    ("partial-init-fn", _HDR + "class L(nn.Module):\n    def __init__(self, n):\n        super().__init__()\n        self.w = synapgrad.empty((n,))\n        init._calculate_fan_in_and_fan_out(self.w)\n", [("w", False)]),
+    ("data-assignment", _HDR + "import numpy as np\nclass L(nn.Module):\n    def __init__(self, n):\n        super().__init__()\n        self.w = synapgrad.empty((n,))\n        self.w.data = np.zeros((n,))\n", [("w", True)]),
+    ("outside-constructor", _HDR + "def f(n):\n    return synapgrad.empty((n,)) * 2\n", [("", False)]),
+    ("in-loop", _HDR + "class L(nn.Module):\n    def __init__(self, n):\n        super().__init__()\n        for i in range(2):\n            self.w = synapgrad.empty((n,))\n        init.ones_(self.w)\n", [("", False)]),
+    ("aliased-import", "from synapgrad import empty as mk\nfrom synapgrad.nn import init\nclass L:\n    def __init__(self, n):\n        self.w = mk((n,))\n        init.ones_(self.w)\n", [("w", True)]),
+    ("else-branch", _HDR + "class L(nn.Module):\n    def __init__(self, n, affine):\n        super().__init__()\n        if affine:\n            self.w = None\n        else:\n            self.w = synapgrad.empty((n,))\n        if not affine:\n            init.ones_(self.w)\n", [("w", True)]),
+    ("wrong-polarity", _HDR + "class L(nn.Module):\n    def __init__(self, n, affine):\n        super().__init__()\n        if not affine:\n            self.w = synapgrad.empty((n,))\n        if affine:\n            init.ones_(self.w)\n", [("w", False)]),
+]
+
 UNIT_RAISES = [
     ("star-import", "from numpy.random import *\nx = rand(3)\n"),
     ("syntax-error", "def f(:\n"),
@@ -370,6 +400,24 @@ def unit_cases():
         got_o = sorted(r["method"] for r in rows["order_defs"])
         if got_s != sorted(exp_sorts) or got_o != sorted(exp_orders):
             mism.append({"unit": name, "expected": [sorted(exp_sorts), sorted(exp_orders)], "got": [got_s, got_o]})
+    saved = set(G.FULL_INITS)
+    G.FULL_INITS.update("synapgrad.nn.init." + n for n in ("ones_", "zeros_", "uniform_", "normal_", "constant_"))
+    for name, src, exp in UNIT_EMPTY:
+        try:
+            rows = G.FileCensus("unit.py", "synapgrad", src).run()
+        except Exception as ex:
+            mism.append({"unit": name, "raised": repr(ex)[:200]})
+            continue
+        got = sorted((r["attr"], r["initialised"]) for r in rows["empty_uses"])
+        if got != sorted(exp):
+            mism.append({"unit": name, "expected": sorted(exp), "got": got, "how": [r["how"] for r in rows["empty_uses"]]})
+    G.FULL_INITS.clear(); G.FULL_INITS.update(saved)
+    # full_inits on synthetic init modules
+    import ast as _ast
+    fi = G.full_inits(_ast.parse("def a_(t):\n    t.data = 1\n    return t\ndef b_(t, g=1):\n    if g < 0:\n        raise ValueError\n    return a_(t, g)\n"
+                                 "def c_(t, g):\n    if g:\n        return t\n    t.data = 0\ndef d_(t):\n    t.data[0] = 1\ndef e_(t, u):\n    u.data = 1\ndef _f_(t):\n    t.data = 1\n"))
+    if fi != {"synapgrad.nn.init.a_", "synapgrad.nn.init.b_"}:
+        mism.append({"unit": "full_inits", "got": sorted(fi)})
     for name, src in UNIT_RAISES:
         try:
             G.FileCensus("unit.py", "synapgrad", src).run()
@@ -379,5 +427,5 @@ def unit_cases():
         except Exception as ex:
             mism.append({"unit": name, "expected": "Unclassifiable", "got": repr(ex)[:200]})
     # the token scan on the same snippets must find every non-alias draw the AST finds (and vice versa)
-    n = len(UNIT) + len(UNIT_SORTS) + len(UNIT_RAISES)
+    n = len(UNIT) + len(UNIT_SORTS) + len(UNIT_EMPTY) + 1 + len(UNIT_RAISES)
     return n, n, mism
